@@ -3,6 +3,10 @@ import QmiModel.Lemmas.C17Layout
 import QmiModel.Lemmas.C17Hdf5
 import QmiModel.Lemmas.C17Store
 import QmiModel.Lemmas.C17Rec
+import QmiModel.Lemmas.C17List
+import QmiModel.Lemmas.C17Exact
+import QmiModel.Lemmas.C17Race
+import QmiModel.Lemmas.C17Api
 /-!
 # C17 — stored measurement data reads back equal and is never silently overwritten
 
@@ -15,7 +19,7 @@ All defects the check had found on the pinned tree (04de7e7) are repaired in /re
 text writer, and `repr`'s `\Uhhhhhhhh` escape was unknown to the reader).
 -/
 namespace QmiModel.C17
-open AttrL LayoutL Hdf5L StoreL RecL
+open AttrL LayoutL Hdf5L StoreL RecL ListL ExactL RaceL ApiL
 
 /-! ## text header values: `_parse_attribute_value (repr v) = v` -/
 
@@ -75,6 +79,25 @@ theorem layout_roundtrip [DecidableEq α] (ι : Nat → α) (d : Layout α) (h :
 
 example : LayoutL.WF ({ dims := [2, 3], ncol := 2, data := List.range 12, scales := [some [7, 8], none] } : Layout Nat) :=
   LayoutL.exLayout_wf
+
+/-! ## where well-formedness comes from: the `DataSet` constructor and setters -/
+
+/-- a dataset the constructor accepts has ≥ 2 axes, all sizes ≥ 1 and no scales yet -/
+theorem dataset_new_valid (shape : List Int) (d : DSApi) (h : DSApi.new shape = .ok d) : d.Valid := ApiL.new_valid shape d h
+
+/-- `set_axis_scale` accepts only a scale as long as its axis, so validity is kept -/
+theorem dataset_set_scale_valid (d d' : DSApi) (axis : Int) (len : Nat) (fin : Bool) (hv : d.Valid)
+    (h : d.setScale axis len fin = .ok d') : d'.Valid := ApiL.setScale_valid d d' axis len fin hv h
+
+/-- hence every dataset built through the API meets the hypothesis `WF` of the layout theorems -/
+theorem dataset_api_layout_wf {α : Type} (d : DSApi) (hv : d.Valid) (data : List α) (scales : List (Option (List α)))
+    (hdata : data.length = prod d.dims * d.ncol) (hsc : scales.length = d.scales.length)
+    (hlen : ∀ (ax : Nat) (s : List α), scales[ax]? = some (some s) → d.scales[ax]? = some (some s.length)) :
+    LayoutL.WF ({ dims := d.dims, ncol := d.ncol, data := data, scales := scales } : Layout α) :=
+  ApiL.valid_layout_wf d hv data scales hdata hsc hlen
+
+example : DSApi.new [2, 3, 2] = .ok { dims := [2, 3], ncol := 2, scales := [none, none] } := by decide
+example : DSApi.new [2, 0] = .error .valueError ∧ DSApi.new [5] = .error .valueError ∧ DSApi.new [2, -1, 3] = .error .valueError := by decide
 
 /-! ## HDF5 attribute mapping -/
 
@@ -148,6 +171,83 @@ theorem find_latest_date_numeric (st : DStore) (label dd ff t : Str)
 theorem find_latest_none (st : DStore) (label : Str) (h : findLatest st label none = .ok none) :
     ∀ dd ff t, ¬ IsCandidate st label dd ff t := StoreL.find_latest_none st label h
 
+/-- `list_folders(label)` lists exactly the folders `find_latest_folder(label)` chooses from -/
+theorem list_folders_spec (st : DStore) (label : Str) (l : List (Str × Str × Str))
+    (h : listFolders st (some label) = .ok l) :
+    ∀ dd ff t, (dd, ff, t) ∈ l ↔ IsCandidate st label dd ff t := ListL.list_folders_spec st label l h
+
+/-- the latest folder is one of the listed ones and no listed one is later -/
+theorem latest_in_list (st : DStore) (label dd ff t : Str) (l : List (Str × Str × Str))
+    (hl : listFolders st (some label) = .ok l) (h : findLatest st label none = .ok (some (dd, ff, t))) :
+    (dd, ff, t) ∈ l ∧ ∀ x ∈ l, strLe x.1 dd = true ∧ (x.1 = dd → strLe x.2.2 t = true) :=
+  ListL.latest_in_list st label dd ff t l hl h
+
+/-- the lookup answers `None` exactly when the listing for the label is empty -/
+theorem latest_none_iff_list_empty (st : DStore) (label : Str) (l : List (Str × Str × Str))
+    (hl : listFolders st (some label) = .ok l) (r : Option (Str × Str × Str))
+    (h : findLatest st label none = .ok r) : r = none ↔ l = [] :=
+  ListL.latest_none_iff_list_empty st label l hl r h
+
+/-! ### two callers inside `make_folder` at once (threads or processes); only `mkdir` is atomic -/
+
+/-- the same folder is never handed out to both callers, whatever the interleaving of their steps -/
+theorem concurrent_make_folder_one_winner (d f : Bool → Str) (st0 : DStore) (r : Race) (h : RaceReach d f st0 r)
+    (hsame : d false = d true ∧ f false = f true) : ¬ (r.pc false = .ok ∧ r.pc true = .ok) :=
+  RaceL.race_one_winner d f st0 r h hsame
+
+/-- a folder that existed before is handed out to neither -/
+theorem concurrent_make_folder_fresh (d f : Bool → Str) (st0 : DStore) (r : Race) (h : RaceReach d f st0 r) (i : Bool)
+    (hex : st0.hasFolder (d i) (f i) = true) : r.pc i ≠ .ok := RaceL.race_existing_not_handed_out d f st0 r h i hex
+
+/-- a caller that is told "ok" has its folder, and no existing folder disappears -/
+theorem concurrent_make_folder_creates (d f : Bool → Str) (st0 : DStore) (r : Race) (h : RaceReach d f st0 r) :
+    (∀ i, r.pc i = .ok → r.st.hasFolder (d i) (f i) = true) ∧
+    (∀ d' f', st0.hasFolder d' f' = true → r.st.hasFolder d' f' = true) :=
+  ⟨fun i hi => RaceL.race_ok_has d f st0 r h i hi, RaceL.race_mono d f st0 r h⟩
+
+/-! ### a write the format writer refuses (reserved attribute name; text: line break in a name, inexact integer) -/
+
+/-- the refusal is loud (ValueError), the target is left as an EMPTY file (never a partial dataset: the text
+writer checks before it writes its first byte), and only when the file was new or `overwrite` was requested -/
+theorem refused_write_leaves_empty_file (fs : Folder) (op : WriteOp) (p : Str) (ht : op.target = some p)
+    (hf : op.writerFails = true) (hfree : (fs.get p).isSome = false ∨ op.overwrite = true) :
+    writeDataset fs op = (fs.put p 0, .error .valueError) := by
+  unfold WriteOp.target at ht
+  unfold writeDataset
+  split at ht
+  · cases ht
+  · rename_i hname
+    simp only [hname, if_false]
+    cases hfmt : op.fmt with
+    | other => rw [hfmt] at ht; cases ht
+    | hdf5 =>
+      rw [hfmt] at ht; injection ht with ht; subst ht
+      rcases hfree with h | h <;> simp [h, hf]
+    | text =>
+      rw [hfmt] at ht; injection ht with ht; subst ht
+      rcases hfree with h | h <;> simp [h, hf]
+
+/-- which refusals exist per format -/
+theorem writer_refusals (fmt : Fmt) (c : FailCause) :
+    writerRaises fmt c = true ↔ (c = .reservedName ∨ (fmt = .text ∧ (c = .lineBreakName ∨ c = .inexactInt))) := by
+  cases fmt <;> cases c <;> simp [writerRaises]
+
+/-! ### the text writer's exactness check -/
+
+/-- every integer up to 2^53 is exact in float64: the writer's shortcut `abs v > 2**53` skips no inexact value -/
+theorem f64_small_exact (n : Nat) (h : n ≤ 2 ^ 53) : toF64 n = n := ExactL.toF64_small n h
+
+/-- the writer accepts an integer array iff every element survives the trip through float64 unchanged -/
+theorem text_accepts_iff_exact (vals : List Nat) : refusesInts vals = false ↔ ∀ v ∈ vals, toF64 v = v :=
+  ExactL.accepted_iff_all_exact vals
+
+/-- … iff every element is a multiple of 2^(bitlength − 53) or has at most 53 bits -/
+theorem text_accepts_iff_representable (vals : List Nat) : refusesInts vals = false ↔ ∀ v ∈ vals, ExactF64 v :=
+  ExactL.accepted_iff_all_ExactF64 vals
+
+/-- what the reader gets back for an accepted value is that value (float64 → int is stable) -/
+theorem f64_idem (n : Nat) : toF64 (toF64 n) = toF64 n := ExactL.toF64_idem n
+
 /-! ## recorder: all interleavings of record / set_attribute / shutdown with the writer's swap and flush -/
 
 /-- nothing is lost or duplicated, whatever the interleaving:
@@ -163,7 +263,7 @@ theorem all_blocks_after_close (s : RecSt) (h : RecReach s) (hd : s.pc = .done) 
   obtain ⟨x, hx⟩ := hi.late_sh (hi.done_quit hd) (by rw [hd]; decide) d
   refine ⟨x, ?_, hx⟩
   have hc := hi.conserve d
-  rw [hi.idle_loc (by rw [hd]; decide) d, hi.split d, hx] at hc
+  rw [hi.idle_loc (Or.inr hd) d, hi.split d, hx] at hc
   simp only [List.flatten_nil, List.append_nil, ← List.append_assoc] at hc
   exact List.append_cancel_right hc
 
@@ -191,17 +291,50 @@ theorem attrs_after_close (s : RecSt) (h : RecReach s) (hd : s.pc = .done) (d : 
     (hq : s.sattrs d = none) : s.fattrs d = s.want d := by
   have hi := ainv_reach h
   have he := hi.eff d
-  have hn := hi.idle_new (by rw [hd]; decide) d
+  have hn := hi.idle_new (Or.inr hd) d
   have hp : s.pendA d = none := by
     cases hpd : s.pendA d with
     | none => rfl
     | some p => exact absurd (hi.pend_file d (by rw [hpd]; simp)) hf
   simpa [effAttrs, hn, hp, hq, upd_empty] using he
 
-/-- after a shutdown request the writer's own (always enabled) actions reach `done` in ≤ 3 steps -/
-theorem writer_finishes (s : RecSt) (hsd : s.shutdown = true) (hpc : s.pc ≠ .done) :
+/-- after a shutdown request the writer's own (always enabled) actions reach `done` in ≤ 3 steps, unless the
+write loop has ended with an exception -/
+theorem writer_finishes (s : RecSt) (hsd : s.shutdown = true) (hpc : s.pc ≠ .done) (hpf : s.pc ≠ .failed) :
     ∃ acts : List RecAct, acts.length ≤ 3 ∧ (∀ a ∈ acts, a = .swap ∨ a = .flush) ∧
-      (recRun s acts).map (·.pc) = some .done := RecL.writer_finishes s hsd hpc
+      (recRun s acts).map (·.pc) = some .done := RecL.writer_finishes s hsd hpc hpf
+
+/-! ### the writer meets an I/O error (`crash`): close() says so (fix 342cad2) -/
+
+/-- close() raises exactly when the write loop ended with an exception, and returns normally exactly when it
+ended regularly -/
+theorem close_reports_writer_error (s : RecSt) :
+    (closeResult s = some .runtimeError ↔ s.pc = .failed) ∧ (closeResult s = some .ok ↔ s.pc = .done) := by
+  cases h : s.pc <;> simp [closeResult, h]
+
+/-- **nothing is lost silently**: whenever close() returns normally — over all interleavings of record,
+set_attribute, shutdown, the writer's swap / flush and a possible I/O failure of the writer — every block
+recorded before close() was requested is in the file, once and in recording order -/
+theorem close_ok_implies_all_blocks (s : RecSt) (h : RecReach s) (hc : closeResult s = some .ok) (d : Nat) :
+    ∃ x, s.file d = s.pre d ++ x ∧ s.late d = x ++ (s.shared d).flatten :=
+  all_blocks_after_close s h ((close_reports_writer_error s).2.1 hc) d
+
+/-- after a failure nothing is duplicated or invented either: the file still is a prefix of what was recorded
+and the rest is exactly the batch and the queue that could not be written -/
+theorem writer_failure_keeps_prefix (s : RecSt) (h : RecReach s) (d : Nat) :
+    s.file d ++ ((s.loc d).flatten ++ (s.shared d).flatten) = s.recorded d := by
+  rw [← List.append_assoc]; exact recorder_invariant s h d
+
+/-- a failed writer does nothing more (its thread has ended) -/
+theorem failed_is_final (s : RecSt) (hf : s.pc = .failed) :
+    recStep s .swap = none ∧ recStep s .flush = none ∧ recStep s .crash = none := by
+  simp [recStep, hf]
+
+/-- non-vacuity: the second batch cannot be written; close() raises, the first batch is in the file -/
+example :
+    ((recRun RecSt.init [.record 0 [1], .swap, .flush, .record 0 [2], .swap, .crash, .record 0 [3], .shutdown]).map
+      (fun s => (s.file 0, closeResult s, (s.loc 0).flatten ++ (s.shared 0).flatten))) = some ([1], some .runtimeError, [2, 3]) := by
+  decide
 
 /-- record() is never blocked or refused -/
 theorem record_always_enabled (s : RecSt) (d : Nat) (b : List Nat) : (recStep s (.record d b)).isSome = true := by
